@@ -239,43 +239,55 @@ theorem nint_distance_mpq_spec (p : Int) (q : Nat) (hq : 0 < q) :
 theorem nint_distance_tie_counterexample :
     nintDistF ⟨1, 5, -1, 3⟩ = .ok (-3, .fin 0) ∧ nintDistQ (-5) 2 = .ok (-2, .fin (-1)) := by decide
 
-/-- "requires a finite number" is NOT enforced for the real part: the `mag < 0` test comes first and every
-special tuple has `exp + bc < 0`, so `nint_distance(±inf)` and `nint_distance(nan)` return `(0, exp+bc)` instead
-of raising; only a special IMAGINARY part raises.  (Replayed on the real code: `mp.nint_distance(mp.inf)`
-is `(0, -458)`.) -/
-theorem nint_distance_special_counterexample :
-    nintDistF finf = .ok (0, .fin (-458)) ∧ nintDistF fninf = .ok (0, .fin (-792)) ∧
-    nintDistF fnan = .ok (0, .fin (-124)) ∧ nintDistC finf fone = .ok (0, .fin 1) ∧
-    nintDistC fone finf = .error .value := by decide
+/-- "requires a finite number" is enforced for both parts (after the repair of the real-part check,
+commit 8a0fe53: before it `nint_distance(inf)` returned `(0, -458)`): a special real OR imaginary part raises
+ValueError. -/
+theorem nint_distance_specials :
+    nintDistF finf = .error .value ∧ nintDistF fninf = .error .value ∧ nintDistF fnan = .error .value ∧
+    nintDistC finf fone = .error .value ∧ nintDistC fone finf = .error .value := by decide
 
-/-- what does hold for all inputs: the result is an error only for a special imaginary part or a
-non-canonical zero-mantissa real part with `exp + bc ≥ 0`. -/
-theorem nint_distance_error_partial (re im : Mpf) (e : Err) (h : nintDistC re im = .error e) :
-    e = .value ∧ ((im.man = 0 ∧ im ≠ fzero) ∨ (re.man = 0 ∧ re ≠ fzero ∧ 0 ≤ re.exp + re.bc)) := by
-  unfold nintDistC at h
-  have core : ∀ D, nintDistCore re D = .error e →
-      e = .value ∧ (re.man = 0 ∧ re ≠ fzero ∧ 0 ≤ re.exp + re.bc) := by
-    intro D hD
-    unfold nintDistCore at hD
-    simp only at hD
-    split at hD
-    · cases hD
-    · rename_i hmag
-      split at hD
-      · cases hD
-      · rename_i hman
-        split at hD
-        · cases hD
-        · rename_i hz
-          injection hD with hD
-          exact ⟨hD.symm, by simpa using hman, hz, by omega⟩
-  split at h
-  · exact ⟨(core _ h).1, Or.inr (core _ h).2⟩
-  · rename_i hman
-    split at h
-    · exact ⟨(core _ h).1, Or.inr (core _ h).2⟩
-    · rename_i hz
-      injection h with h
-      exact ⟨h.symm, Or.inl ⟨by simpa using hman, hz⟩⟩
+/-- for all inputs: the result is an error exactly for a special (zero mantissa, not zero) real or
+imaginary part. -/
+theorem nint_distance_error_iff (re im : Mpf) :
+    (∃ e, nintDistC re im = .error e) ↔ ((im.man = 0 ∧ im ≠ fzero) ∨ (re.man = 0 ∧ re ≠ fzero)) := by
+  unfold nintDistC
+  have core : ∀ D, (∃ e, nintDistCore re D = .error e) ↔ (re.man = 0 ∧ re ≠ fzero) := by
+    intro D
+    unfold nintDistCore
+    by_cases h : re.man = 0 ∧ re ≠ fzero
+    · rw [if_pos h]; exact ⟨fun _ => h, fun _ => ⟨_, rfl⟩⟩
+    · rw [if_neg h]
+      constructor
+      · rintro ⟨e, he⟩
+        exfalso
+        simp only at he
+        split at he
+        · cases he
+        · split at he
+          · cases he
+          · rename_i hm
+            have hm0 : re.man = 0 := by simpa using hm
+            split at he
+            · cases he
+            · rename_i hz; exact h ⟨hm0, hz⟩
+      · intro h'; exact absurd h' h
+  by_cases hm : im.man ≠ 0
+  · rw [if_pos hm, core]
+    constructor
+    · intro h; exact Or.inr h
+    · rintro (h | h)
+      · exact absurd h.1 hm
+      · exact h
+  · rw [if_neg hm]
+    have hm0 : im.man = 0 := by simpa using hm
+    by_cases hz : im = fzero
+    · rw [if_pos hz, core]
+      constructor
+      · intro h; exact Or.inr h
+      · rintro (h | h)
+        · exact absurd hz h.2
+        · exact h
+    · rw [if_neg hz]
+      exact ⟨fun _ => Or.inl ⟨hm0, hz⟩, fun _ => ⟨_, rfl⟩⟩
 
 end Mp
